@@ -221,7 +221,7 @@ Fixpoint fo_c (T : ty) : cexpr :=
   | TArr t => if is_dyn t then CArrayDyn else CArray (fo_c t)
   | TRec rows tail =>
       CRecord (map (fun r => (fst r, fo_c (snd r))) rows)
-              (match tail with RClosed => CTEmpty | _ => CTDyn end)
+              (match tail with RClosed => CTEmpty | RExcl e => CTVar (VExcludedOnly e) | _ => CTDyn end)
               (match tail with RClosed => false | _ => true end)
   | TDict fl t =>
       if is_dyn t then CDictDyn
@@ -262,14 +262,19 @@ Proof.
   cbn. f_equal. induction rows as [|[k [t|]] rows IH]; cbn; auto. now rewrite IH.
 Qed.
 
-Definition tail_open (tail : rtail) : bool := match tail with RDyn => true | _ => false end.
+Definition tail_open (tail : rtail) (k : string) : bool :=
+  match tail with
+  | RDyn => true
+  | RExcl excl => negb (existsb (String.eqb k) excl)
+  | _ => false
+  end.
 
 Lemma member_rec rows tail fs :
   member (TRec rows tail) (DRec fs) =
   forallb (fun r => has_key (fst r) fs) rows
   && forallb (fun f => match lookup (fst f) rows with
                        | Some t => member t (snd f)
-                       | None => tail_open tail
+                       | None => tail_open tail (fst f)
                        end) fs.
 Proof.
   cbn. f_equal. apply forallb_ext'. intros f.
@@ -340,7 +345,7 @@ Lemma apply_record fields tail ht p fs :
             | CTDyn => Ok (DRec (with_contracts ++ right_only sp))
             | CTVar (VExcludedOnly constr) =>
                 if negb (is_nil (conflicts constr (right_only sp))) then blame p
-                else Ok (DRec with_contracts)
+                else Ok (DRec (with_contracts ++ right_only sp))
             | CTVar _ => Err OutOfFragment
             end).
 Proof.
@@ -444,6 +449,31 @@ Lemma keys_map_fo (rows : list (string * ty)) :
   keys (map (fun r => (fst r, fo_c (snd r))) rows) = keys rows.
 Proof. unfold keys. rewrite map_map. reflexivity. Qed.
 
+Lemma map_outcome_total {A B} (f : A -> outcome B) e l :
+  Forall (fun a => (exists b, f a = Ok b) \/ f a = Err e) l ->
+  (exists l', map_outcome f l = Ok l') \/ map_outcome f l = Err e.
+Proof.
+  induction 1 as [|a l Ha _ IH]; cbn; [left; eauto|]. fold (map_outcome f).
+  destruct Ha as [(b & Hb)|Ha]; [|rewrite Ha; auto].
+  rewrite Hb. cbn. destruct IH as [(l' & Hl')|Hl']; rewrite Hl'; cbn; eauto.
+Qed.
+
+Lemma conflicts_nil e (ro : list (string * dv)) :
+  (forall f, In f ro -> existsb (String.eqb (fst f)) e = false) -> conflicts e ro = [].
+Proof.
+  unfold conflicts, keys. induction ro as [|f ro IH]; cbn; auto. intros H.
+  rewrite (H f) by auto. apply IH. auto.
+Qed.
+
+Lemma conflicts_not_nil e (ro : list (string * dv)) f :
+  In f ro -> existsb (String.eqb (fst f)) e = true -> is_nil (conflicts e ro) = false.
+Proof.
+  unfold conflicts, keys. induction ro as [|g ro IH]; cbn; [tauto|].
+  intros [->|Hin] He.
+  - rewrite He. reflexivity.
+  - destruct (existsb (String.eqb (fst g)) e); auto.
+Qed.
+
 Lemma apply_spec : forall T, first_order T = true -> wf_ty T = true -> forall p v, spec T p v.
 Proof.
   induction T as [| | | |t IH|a b _ _|rows tail IH|fl t IH|rows tail IH|x k t _|x|n] using ty_ind';
@@ -503,7 +533,7 @@ Proof.
     set (ro := filter (fun f : string * dv => negb (has_key (fst f) fields)) fs).
     set (okf := fun f : string * dv => match lookup (fst f) rows with
                                        | Some t => member t (snd f)
-                                       | None => tail_open tail end).
+                                       | None => tail_open tail (fst f) end).
     (* every field of the centre runs the contract of its declared type *)
     assert (Hcenter_total : Forall (fun f => (exists b, field_app p fields f = Ok b)
                                              \/ field_app p fields f = Err (Blame p)) center).
@@ -573,22 +603,39 @@ Proof.
               rewrite Hleft' by auto. rewrite !filter_app, Hc'r, Hc'c, Hroc, Hror.
               rewrite app_nil_r. cbn [app]. rewrite andb_false_r. cbn [negb].
               rewrite H3. reflexivity.
-      * (* some field is not in its declared type *)
+        -- (* open except for the excluded names *)
+           assert (Hconf : conflicts excl ro = []).
+           { apply conflicts_nil. intros f Hf. apply filter_In in Hf. destruct Hf as [Hin Hk].
+             specialize (Eok f Hin). unfold okf in Eok.
+             rewrite Hhk, has_key_lookup in Hk. destruct (lookup (fst f) rows); [discriminate|].
+             cbn in Eok. apply negb_true_iff in Eok. exact Eok. }
+           rewrite Hconf. cbn [is_nil negb].
+           exists (DRec (center' ++ ro)). repeat split; auto.
+           ++ eapply EqRec; eauto.
+           ++ rewrite apply_record. cbv zeta. unfold split_pair; cbn [left_only right_center right_only].
+              rewrite Hleft' by auto. rewrite !filter_app, Hc'r, Hc'c, Hroc, Hror.
+              rewrite app_nil_r. cbn [app]. rewrite andb_false_r. cbn [negb].
+              rewrite H3. cbn [obind]. rewrite Hconf. reflexivity.
+      * (* some field is not in its declared type, or is an excluded extra field *)
         split; [discriminate|intros _].
-        rewrite (map_outcome_err _ (Blame p)); auto.
         apply forallb_false_exists in Eok. apply Exists_exists in Eok.
         destruct Eok as (f & Hin & Hbad). unfold okf in Hbad.
         destruct (lookup (fst f) rows) as [t|] eqn:El.
-        -- apply Exists_exists. exists f. split.
+        -- rewrite (map_outcome_err _ (Blame p)); auto.
+           apply Exists_exists. exists f. split.
            ++ apply filter_In. split; auto. rewrite Hhk, has_key_lookup, El. reflexivity.
            ++ unfold field_app. rewrite Hlk, El. cbn.
               destruct (IHr _ _ El (snd f)) as [_ Hb]. rewrite Hb; auto.
-        -- (* undeclared field with a closed tail: excluded by Eextra *)
-           exfalso. destruct tail; cbn in Hbad; try discriminate.
-           ++ cbn [negb andb] in Eextra. rewrite andb_true_r in Eextra. apply negb_false_iff in Eextra.
-              assert (Hro : In f ro).
-              { apply filter_In. split; auto. rewrite Hhk, has_key_lookup, El. reflexivity. }
+        -- assert (Hro : In f ro).
+           { apply filter_In. split; auto. rewrite Hhk, has_key_lookup, El. reflexivity. }
+           destruct tail; cbn in Hbad; try discriminate.
+           ++ (* closed tail: excluded by Eextra *)
+              exfalso. cbn [negb andb] in Eextra. rewrite andb_true_r in Eextra. apply negb_false_iff in Eextra.
               destruct ro; [inversion Hro|discriminate].
+           ++ (* excluded-only tail *)
+              apply negb_false_iff in Hbad.
+              destruct (map_outcome_total _ _ _ Hcenter_total) as [(l' & Hl')|Hl']; rewrite Hl'; auto.
+              cbn [obind]. rewrite (conflicts_not_nil _ _ _ Hro Hbad). reflexivity.
   - (* Dict *)
     cbn in Hfo, Hwf. specialize (IH Hfo Hwf p).
     assert (Hgen : forall c, (c = CDictContract (fo_c t) \/ c = CDictType (fo_c t)) ->
